@@ -317,7 +317,9 @@ def run_corpus(configs, stats):
 
 def new_stats():
     return {"programs": 0, "evaluations": 0, "op_kinds": Counter(), "result_kinds": Counter(),
-            "nontrivial": set(), "samples": [], "configs": Counter(), "disagreeing_runs": 0, "corpus_runs": 0}
+            "nontrivial": set(), "samples": [], "configs": Counter(), "disagreeing_runs": 0, "corpus_runs": 0,
+            "conc_programs": 0, "conc_events": 0, "conc_kinds": Counter(), "conc_nontrivial": set(),
+            "conc_ends": Counter(), "conc_samples": [], "conc_failures": 0}
 
 
 def load_known():
@@ -343,6 +345,24 @@ def replay(pid, path):
         print(out[-2000:])
         return 1
     build_lean(["specgen"])
+    if r.get("kind") == "conc":
+        import conc
+        prog = r["program"]
+        lines = prog.strip().split("\n")
+        lines[0] = re.sub(r"strategy=\S+", "strategy=replay", lines[0])
+        lines = [l for l in lines if not l.startswith("schedule:")] + ["schedule: " + r["schedule"]]
+        run = conc.run_conc("\n".join(lines) + "\n")
+        print("\n".join(run.lines[-40:]))
+        bad = [f"{n}: {d}" for n, (ok, d) in run.oracles.items() if not ok]
+        ctx = {"ords": conc.extracted_orderings(), "cap": re.search(r"cap=(\S+)", prog).group(1)}
+        for mname in conc.ALL_MONITORS:
+            bad += [f"{mname}: {b}" for b in conc.ALL_MONITORS[mname](run, ctx)]
+        if bad:
+            print("failures:", bad[:6])
+            print(f"VIOLATION property={pid} replay={path}")
+            return 1
+        print("replay: all oracles and monitors silent")
+        return 0
     if r.get("ops"):
         cls, fl = r.get("cfg", "w:s").split(":")
         exp = oracle_eval([r["ops"]])
@@ -434,6 +454,25 @@ def main(argv):
                     break
         for k, extra in enumerate(spec.get("extra_checks", [])):
             disagreements += extra(tier, seed, stats)
+    if harness_ok and spec.get("conc"):
+        import conc
+        for prof, monitors, oracles in spec["conc"](tier, seed):
+            log(f"conc profile {prof.name}: n={prof.n} threads={prof.threads} monitors={','.join(monitors)} oracles={','.join(oracles)}")
+            fails = conc.run_profile(prof, seed, monitors, oracles, stats)
+            stats["conc_failures"] += len(fails)
+            disagreements += fails
+        if spec.get("conc_corpus"):
+            for fn in spec["conc_corpus"]:
+                run = conc.run_conc(open(os.path.join(CORPUS, fn)).read())
+                stats["conc_programs"] += 1
+                stats["corpus_runs"] += 1
+                bad = [f"{n}: {d}" for n, (ok, d) in run.oracles.items() if not ok]
+                ctx = {"ords": conc.extracted_orderings(), "cap": "0"}
+                for mname in spec.get("conc_corpus_monitors", []):
+                    bad += [f"{mname}: {b}" for b in conc.ALL_MONITORS[mname](run, ctx)]
+                if bad:
+                    disagreements.append({"kind": "conc", "profile": "corpus:" + fn, "program": open(os.path.join(CORPUS, fn)).read(),
+                                          "schedule": run.schedule, "failures": bad[:6], "trace_tail": run.lines[-30:]})
 
     # 4. verdict
     relevant = spec.get("relevant", lambda d: True)
@@ -441,7 +480,7 @@ def main(argv):
     known = load_known()
     real, other = [], []
     for d in disagreements:
-        if d["kind"] in ("hang", "crash", "generator-failed"):
+        if d["kind"] in ("hang", "crash", "generator-failed", "conc"):
             real.append(d)
             continue
         d["monitor"] = monitor_flags(d["impl"]) if "impl" in d else []
@@ -468,8 +507,9 @@ def main(argv):
                 print(f"KNOWN-FINDING: property={pid} {k.get('what', '')}")
             known_hits = hit
         else:
-            replay_path = write_replay(pid, seed, dict(d, property=pid, broken=[b["what"] for b in broken],
-                                                     how="sequential differential: implementation vs the atomic-channel oracle"))
+            how = ("controlled-scheduler run of the real crate: implementation-side monitor/oracle failed; replay = program + schedule"
+                   if d["kind"] == "conc" else "sequential differential: implementation vs the atomic-channel oracle")
+            replay_path = write_replay(pid, seed, dict(d, property=pid, broken=[b["what"] for b in broken], how=how))
             print(f"VIOLATION property={pid} replay={replay_path}")
             exit_code = 1
     elif broken or other:
@@ -488,13 +528,17 @@ def main(argv):
         "trusted_base": sorted(axioms_seen) + spec.get("trusted", []),
         "theorems": sorted(theorems),
         "programs": stats["programs"], "disagreements_checked": stats["disagreeing_runs"],
-        "evaluations": stats["evaluations"], "distinct_nontrivial": len(stats["nontrivial"]),
+        "evaluations": stats["evaluations"] + stats["conc_programs"], "distinct_nontrivial": len(stats["nontrivial"]) + len(stats["conc_nontrivial"]),
         "rule": "sequences are generated by the Lean oracle (exhaustive DFS to the family's depth, or seeded random walks), executed on the real crate under each payload-class:flavour configuration; distinct = distinct op sequence; non-trivial = the oracle's result stream contains a value transfer, a pending/woken future, a drop or a timeout",
         "samples": stats["samples"] + [{"theorem": t, "axioms": a} for t, a in list(theorems.items())[:3]],
         "configs": dict(stats["configs"]), "corpus_runs": stats["corpus_runs"],
         "op_kinds": dict(stats["op_kinds"]), "result_kinds": dict(stats["result_kinds"]),
         "families": [f.name for f in spec["families"](tier, seed)],
         "exhaustive": False,
+        "traces_validated_against_impl": stats["conc_programs"],
+        "conc": {"programs": stats["conc_programs"], "events": stats["conc_events"], "distinct_nontrivial_schedules": len(stats["conc_nontrivial"]),
+                 "event_kinds": dict(stats["conc_kinds"]), "run_ends": dict(stats["conc_ends"]), "samples": stats["conc_samples"],
+                 "rule": "programs are generated from the property's profile (seeded), each run under one seeded schedule of the controlled scheduler on the real crate; non-trivial = the run contains a signal hand-off (st/cas on a signal) or a park; distinct = distinct sequence of lock/unlock/st/cas/park/unpark/wake/ret events"},
         "explanation": spec.get("explanation", ""),
     }
     ev = {"property_id": pid, "tier": tier, "seed": seed, "level": level, "coverage": cov,
@@ -502,6 +546,6 @@ def main(argv):
           "violations": 1 if exit_code else 0}
     os.makedirs(EVID, exist_ok=True)
     json.dump(ev, open(os.path.join(EVID, f"{pid}.json"), "w"), indent=1)
-    log(f"{pid} tier={tier} seed={seed}: obligations {n_dis}/{n_oblig}, programs {stats['programs']}, "
+    log(f"{pid} tier={tier} seed={seed}: obligations {n_dis}/{n_oblig}, programs {stats['programs']}, conc runs {stats['conc_programs']} ({stats['conc_failures']} failing), "
         f"evaluations {stats['evaluations']}, disagreements {stats['disagreeing_runs']}, wall {wall:.1f}s, exit {exit_code}")
     return exit_code
